@@ -55,10 +55,14 @@ Definition init_v (vinit : option fmsg) : vstate fmsg := mkV vinit (fclock 0) 1.
 Definition init_c (cinit : list (string * fmsg * Z)) : cstate fmsg :=
   mkC (map (fun p => (fst (fst p), mkItem (snd (fst p)) (snd p))) cinit) 0.
 
-Definition f_run (v0 : bool) (i : option idf) (prog : list fcall) (sched : list nat)
+(* v0: the pinned create path / no commit-number filter; v1: no turnstile (publication not ordered) *)
+Definition f_run_gen (v0 v1 : bool) (i : option idf) (prog : list fcall) (sched : list nat)
            (vinit : option fmsg) (cinit : list (string * fmsg * Z)) :=
-  run fmsg_eqb fzero fw_validate fw_merge fclock str_ltb (idfun_of i) v0 (map to_call prog) sched
+  run fmsg_eqb fzero fw_validate fw_merge fclock str_ltb (idfun_of i) v0 v1 (map to_call prog) sched
       (init (map to_call prog) (init_v vinit) (init_c cinit)).
+Definition f_run (v0 : bool) := f_run_gen v0 false.
+(* the code before the turnstile: pinned behaviour before the fix of known finding C03/1 *)
+Definition f_run_v1 := f_run_gen false true.
 
 Definition f_spec_call (i : option idf) :=
   spec_call fmsg_eqb fzero fw_validate fw_merge fclock str_ltb (idfun_of i) (rmask := list fld).
@@ -139,18 +143,19 @@ Definition id_at (it : list string) (z : Z) : string := nth (Z.to_nat z) it ""%s
 Definition tok_val (vt : list fmsg) (m : fmsg) : Z := index_of fmsg_eqb m vt 0.
 Definition val_at (vt : list fmsg) (z : Z) : option fmsg := if z <? 0 then None else nth_error vt (Z.to_nat z).
 
-Definition f_lrun (v0 : bool) (i : option idf) (prog : list fcall) (sched : list nat)
+Definition f_lrun_gen (v0 v1 : bool) (i : option idf) (prog : list fcall) (sched : list nat)
            (vinit : option fmsg) (cinit : list (string * fmsg * Z)) : state fmsg (list fld) * list flsub :=
   let cprog := map to_call prog in
   let ss := classify prog (fun _ => O) sched in
   let s00 := init cprog (init_v vinit) (init_c cinit) in
-  let splain := run fmsg_eqb fzero fw_validate fw_merge fclock str_ltb (idfun_of i) v0 cprog (threads_of ss) s00 in
+  let splain := run fmsg_eqb fzero fw_validate fw_merge fclock str_ltb (idfun_of i) v0 v1 cprog (threads_of ss) s00 in
   let vt := tbl_vals splain in
   let it := tbl_ids splain in
   let '(s, ls) := lrun fr_filter None (tok_id it) (id_at it) (tok_val vt) (val_at vt)
-                       fmsg_eqb fzero fw_validate fw_merge fclock str_ltb (idfun_of i) v0 cprog
+                       fmsg_eqb fzero fw_validate fw_merge fclock str_ltb (idfun_of i) v0 v1 cprog
                        (lossy_of_prog i prog) ss (s00, []) in
   (s, map (drained fr_filter None (id_at it) (val_at vt)) ls).
+Definition f_lrun (v0 : bool) := f_lrun_gen v0 false.
 
 Definition lc_matches (c : flchange) (o : ochange) : bool :=
   String.eqb (lc_id c) (oc_id o) && (lc_time c =? oc_time o) && (lc_kind c =? oc_kind o) &&
@@ -349,17 +354,14 @@ Definition C03_ok (c : ccase) : bool :=
   | CaseHist _ _ _ _ _ _ => true
   end.
 
-(* known finding C03/1: a publication overtook an earlier commit on the same resource (Set and
-   Update publish after releasing the lock) — decided on the model's run of the schedule *)
-Definition reordered_class (c : ccase) : option Z :=
-  match c with
-  | CaseSched i vinit cinit prog sched _ _ _ _ _ _ =>
-      if st_reordered (fst (f_lrun model_v0 i prog sched vinit cinit)) then Some 1 else None
-  | _ => None
-  end.
-
+(* Known finding C03/1 (a publication overtook an earlier commit: Set and Update published after
+   releasing the lock with nothing ordering the publications) is FIXED by the turnstile
+   (pkg/resource/turnstile.go).  The model's publish steps are enabled in commit order only, so a
+   schedule in which a publication overtakes an earlier commit makes the model stutter: `agrees`
+   fails, and with a stale view C03_ok fails as well -- verdict 3, a hard violation.  No
+   observation is mapped to a known class any more. *)
 Definition judge02 (c : ccase) : Z := verdict (agrees c) (C02_ok c) None.
-Definition judge03 (c : ccase) : Z := verdict (agrees c) (C03_ok c) (reordered_class c).
+Definition judge03 (c : ccase) : Z := verdict (agrees c) (C03_ok c) None.
 
 (* the pinned commit's create path, for replaying the two-Adds witness *)
 Definition agrees_v0 (c : ccase) : bool :=
@@ -381,3 +383,7 @@ Definition debug_case (c : ccase) :=
             map (fun l => (ls_tid l, ls_gotc l, ls_gotv l, ls_closed l)) ls)
   | _ => None
   end.
+
+(* is the next step of thread t enabled (a publication is, only when every earlier commit has left) *)
+Definition f_enabled (i : option idf) (prog : list fcall) (t : nat) (s : state fmsg (list fld)) : bool :=
+  enabled fmsg_eqb fzero fw_validate fw_merge fclock str_ltb (idfun_of i) false false (map to_call prog) t s.
